@@ -38,9 +38,9 @@ Record sechan := {
 
 Record session := {
   ss_timeout : Z; ss_appuri : bytes; ss_producturi : bytes; ss_appname : bytes; ss_locales : option (list bytes);
-  ss_name : bytes; ss_token : option token; ss_authpolicy : bytes; ss_authpass : bytes }.
+  ss_name : bytes; ss_token : option nat (* pointer to a cell of c_toks: cfg.session.UserIdentityToken *); ss_authpolicy : bytes; ss_authpass : bytes }.
 
-Record cstate := { c_acks : list ack; c_dialer : option dialer; c_sechan : sechan; c_session : session; c_statech : N; c_statefn : N }.
+Record cstate := { c_acks : list ack; c_toks : list token (* identity-token cells this construction allocated *); c_dialer : option dialer; c_sechan : sechan; c_session : session; c_statech : N; c_statefn : N }.
 Record gstate := { g_client_ack : ack }.
 
 (* results of the external functions, as observed by the harness *)
@@ -67,13 +67,13 @@ Inductive opt :=
 Inductive ores := Done (g : gstate) (c : cstate) (err : bool) | Panicked (g : gstate).
 
 Definition set_sechan (c : cstate) (s : sechan) : cstate :=
-  {| c_acks := c_acks c; c_dialer := c_dialer c; c_sechan := s; c_session := c_session c; c_statech := c_statech c; c_statefn := c_statefn c |}.
+  {| c_acks := c_acks c; c_toks := c_toks c; c_dialer := c_dialer c; c_sechan := s; c_session := c_session c; c_statech := c_statech c; c_statefn := c_statefn c |}.
 Definition set_session (c : cstate) (s : session) : cstate :=
-  {| c_acks := c_acks c; c_dialer := c_dialer c; c_sechan := c_sechan c; c_session := s; c_statech := c_statech c; c_statefn := c_statefn c |}.
+  {| c_acks := c_acks c; c_toks := c_toks c; c_dialer := c_dialer c; c_sechan := c_sechan c; c_session := s; c_statech := c_statech c; c_statefn := c_statefn c |}.
 Definition set_dialer (c : cstate) (d : option dialer) : cstate :=
-  {| c_acks := c_acks c; c_dialer := d; c_sechan := c_sechan c; c_session := c_session c; c_statech := c_statech c; c_statefn := c_statefn c |}.
+  {| c_acks := c_acks c; c_toks := c_toks c; c_dialer := d; c_sechan := c_sechan c; c_session := c_session c; c_statech := c_statech c; c_statefn := c_statefn c |}.
 Definition set_acks (c : cstate) (l : list ack) : cstate :=
-  {| c_acks := l; c_dialer := c_dialer c; c_sechan := c_sechan c; c_session := c_session c; c_statech := c_statech c; c_statefn := c_statefn c |}.
+  {| c_acks := l; c_toks := c_toks c; c_dialer := c_dialer c; c_sechan := c_sechan c; c_session := c_session c; c_statech := c_statech c; c_statefn := c_statefn c |}.
 
 Definition upd_sc (s : sechan) (policy : bytes) (cert : option bytes) (lk uk : N) (thumb remote : option bytes) (seed mode : N)
   (ar : bool) (ri : Z) (lt : N) (rt : Z) : sechan :=
@@ -94,7 +94,7 @@ Definition sc_set_lifetime s v := upd_sc s (sc_policy s) (sc_cert s) (sc_localke
 Definition sc_set_reqto s v := upd_sc s (sc_policy s) (sc_cert s) (sc_localkey s) (sc_userkey s) (sc_thumb s) (sc_remote s) (sc_seed s) (sc_mode s) (sc_autorec s) (sc_recint s) (sc_lifetime s) v.
 
 Definition upd_ss (timeout : Z) (appuri producturi appname : bytes) (locales : option (list bytes)) (name : bytes)
-  (tok : option token) (authpolicy authpass : bytes) : session :=
+  (tok : option nat) (authpolicy authpass : bytes) : session :=
   {| ss_timeout := timeout; ss_appuri := appuri; ss_producturi := producturi; ss_appname := appname; ss_locales := locales;
      ss_name := name; ss_token := tok; ss_authpolicy := authpolicy; ss_authpass := authpass |}.
 Definition ss_set_timeout s v := upd_ss v (ss_appuri s) (ss_producturi s) (ss_appname s) (ss_locales s) (ss_name s) (ss_token s) (ss_authpolicy s) (ss_authpass s).
@@ -144,9 +144,24 @@ Definition tok_set_policy (t : token) (p : bytes) : token := {| t_kind := t_kind
 Definition tok_set_user (t : token) (u : bytes) : token := {| t_kind := t_kind t; t_policy := t_policy t; t_user := u; t_data := t_data t |}.
 Definition tok_set_data (t : token) (d : option bytes) : token := {| t_kind := t_kind t; t_policy := t_policy t; t_user := t_user t; t_data := d |}.
 
+Definition set_toks (c : cstate) (l : list token) : cstate :=
+  {| c_acks := c_acks c; c_toks := l; c_dialer := c_dialer c; c_sechan := c_sechan c; c_session := c_session c; c_statech := c_statech c; c_statefn := c_statefn c |}.
+
+(* the token cfg.session.UserIdentityToken points to *)
+Definition tok_get (c : cstate) : option token :=
+  match ss_token (c_session c) with Some i => nth_error (c_toks c) i | None => None end.
+(* cfg.session.UserIdentityToken = &ua.XxxIdentityToken{...}: a fresh cell in this client's region *)
+Definition tok_alloc (c : cstate) (t : token) : cstate :=
+  set_session (set_toks c (c_toks c ++ [t])) (ss_set_token (c_session c) (Some (length (c_toks c)))).
+(* a write through the pointer *)
+Definition tok_update (c : cstate) (f : token -> token) : cstate :=
+  match ss_token (c_session c) with
+  | Some i => match nth_error (c_toks c) i with Some t => set_toks c (set_nth (c_toks c) i (f t)) | None => c end
+  | None => c
+  end.
+
 (* setPolicyID(cfg.session.UserIdentityToken, policy): nothing happens on a nil interface *)
-Definition set_policy_id (s : session) (p : bytes) : session :=
-  match ss_token s with Some t => ss_set_token s (Some (tok_set_policy t p)) | None => s end.
+Definition set_policy_id (c : cstate) (p : bytes) : cstate := tok_update c (fun t => tok_set_policy t p).
 
 (* setCertificate *)
 Definition set_certificate (g : gstate) (c : cstate) (cert : option bytes) (i : cert_info) : ores :=
@@ -180,29 +195,30 @@ Section WithTables.
     match ts with
     | [] =>
       match ss_token (c_session c) with
-      | None => Done g (set_session c (ss_set_authpolicy (ss_set_token (c_session c) (Some (tok_set_policy (tok0 0) s_Anonymous))) uri_none)) false
+      | None => (* fallback: a FRESH anonymous token with the default policy id *)
+        let c1 := tok_alloc c (tok_set_policy (tok0 0) s_Anonymous) in
+        Done g (set_session c1 (ss_set_authpolicy (c_session c1) uri_none)) false
       | Some _ => Done g c false
       end
     | None :: _ => Panicked g                                           (* t.TokenType on a nil t *)
     | Some t :: ts' =>
       if negb (N.eqb (et_type t) auth) then sfe_tokens g c e auth ts'
       else
-        let s := c_session c in
-        let s1 := match ss_token s with
-                  | None => if N.leb auth 3 then ss_set_token s (Some (tok0 auth)) else s
-                  | Some _ => s
+        let c1 := match ss_token (c_session c) with
+                  | None => if N.leb auth 3 then tok_alloc c (tok0 auth) else c
+                  | Some _ => c
                   end in
-        let s2 := set_policy_id s1 (et_policyid t) in
-        let s3 := ss_set_authpolicy s2 (if negb (is_emptyb (et_secpolicy t)) then et_secpolicy t else e_policy e) in
-        Done g (set_session c s3) false
+        let c2 := set_policy_id c1 (et_policyid t) in
+        Done g (set_session c2 (ss_set_authpolicy (c_session c2) (if negb (is_emptyb (et_secpolicy t)) then et_secpolicy t else e_policy e))) false
     end.
 
-  Definition auth_token (g : gstate) (c : cstate) (kind : N) (f : token -> session -> session) : ores :=
-    let s := c_session c in
-    let s1 := match ss_token s with None => ss_set_token s (Some (tok0 kind)) | Some _ => s end in
-    match ss_token s1 with
-    | Some t => if N.eqb (t_kind t) kind then Done g (set_session c (f t s1)) false else Done g (set_session c s1) false
-    | None => Done g (set_session c s1) false
+  (* AuthAnonymous / AuthUsername / AuthCertificate / AuthIssuedToken: allocate when nil, then write if the kind matches *)
+  Definition auth_token (g : gstate) (c : cstate) (kind : N) (ft : token -> token) (fs : session -> session) : ores :=
+    let c1 := match ss_token (c_session c) with None => tok_alloc c (tok0 kind) | Some _ => c end in
+    match tok_get c1 with
+    | Some t => if N.eqb (t_kind t) kind then let c2 := tok_update c1 ft in Done g (set_session c2 (fs (c_session c2))) false
+                else Done g c1 false
+    | None => Done g c1 false
     end.
 
   Definition apply_opt (g : gstate) (c : cstate) (o : opt) : ores :=
@@ -250,13 +266,13 @@ Section WithTables.
     | OAuthPolicyID p =>
       match ss_token ss with
       | None => Done g c false
-      | Some _ => Done g (set_session c (set_policy_id ss p)) false
+      | Some _ => Done g (set_policy_id c p) false
       end
-    | OAuthAnonymous => auth_token g c 0 (fun _ s => s)
-    | OAuthUsername u p => auth_token g c 1 (fun t s => ss_set_authpass (ss_set_token s (Some (tok_set_user t u))) p)
-    | OAuthCertificate cert => auth_token g c 2 (fun t s => ss_set_token s (Some (tok_set_data t cert)))
+    | OAuthAnonymous => auth_token g c 0 (fun t => t) (fun s => s)
+    | OAuthUsername u p => auth_token g c 1 (fun t => tok_set_user t u) (fun s => ss_set_authpass s p)
+    | OAuthCertificate cert => auth_token g c 2 (fun t => tok_set_data t cert) (fun s => s)
     | OAuthPrivateKey k => Done g (set_sechan c (sc_set_userkey sc k)) false
-    | OAuthIssuedToken d => auth_token g c 3 (fun t s => ss_set_token s (Some (tok_set_data t d)))
+    | OAuthIssuedToken d => auth_token g c 3 (fun t => tok_set_data t d) (fun s => s)
     | ORequestTimeout d => Done g (set_sechan c (sc_set_reqto sc d)) false
     | ODialer None => Done g (set_dialer c None) false
     | ODialer (Some u) =>
@@ -279,9 +295,9 @@ Section WithTables.
     | OReceiveBufferSize n => write_ack g c (ack_set_rbuf n)
     | OSendBufferSize n => write_ack g c (ack_set_sbuf n)
     | OStateChangedCh id =>
-      Done g {| c_acks := c_acks c; c_dialer := c_dialer c; c_sechan := sc; c_session := ss; c_statech := id; c_statefn := c_statefn c |} false
+      Done g {| c_acks := c_acks c; c_toks := c_toks c; c_dialer := c_dialer c; c_sechan := sc; c_session := ss; c_statech := id; c_statefn := c_statefn c |} false
     | OStateChangedFunc id =>
-      Done g {| c_acks := c_acks c; c_dialer := c_dialer c; c_sechan := sc; c_session := ss; c_statech := c_statech c; c_statefn := id |} false
+      Done g {| c_acks := c_acks c; c_toks := c_toks c; c_dialer := c_dialer c; c_sechan := sc; c_session := ss; c_statech := c_statech c; c_statefn := id |} false
     end.
 
   Variable default_sechan : sechan.     (* DefaultClientConfig() *)
@@ -291,9 +307,9 @@ Section WithTables.
   (* newConfig(): DefaultDialer() either links the package-level Acknowledge or copies it into a fresh cell *)
   Definition new_config (g : gstate) : cstate :=
     if shares_default_ack
-    then {| c_acks := []; c_dialer := Some {| d_net := Some default_dial_timeout; d_ack := Some AGlobal |};
+    then {| c_acks := []; c_toks := []; c_dialer := Some {| d_net := Some default_dial_timeout; d_ack := Some AGlobal |};
             c_sechan := default_sechan; c_session := default_session; c_statech := 0; c_statefn := 0 |}
-    else {| c_acks := [g_client_ack g]; c_dialer := Some {| d_net := Some default_dial_timeout; d_ack := Some (ALocal 0) |};
+    else {| c_acks := [g_client_ack g]; c_toks := []; c_dialer := Some {| d_net := Some default_dial_timeout; d_ack := Some (ALocal 0) |};
             c_sechan := default_sechan; c_session := default_session; c_statech := 0; c_statefn := 0 |}.
 
   Inductive outcome := Created (c : cstate) | Failed | Panic.
@@ -323,7 +339,8 @@ End WithTables.
 Record econfig := { e_net : option (option Z);              (* None: no dialer; Some None: dialer without net.Dialer *)
                     e_ack : option (option ack);
                     e_ack_is_default_ptr : bool;
-                    e_sechan : sechan; e_session : session; e_statech : N; e_statefn : N }.
+                    e_sechan : sechan; e_session : session; e_token : option token (* the identity token, read through the pointer *);
+                    e_statech : N; e_statefn : N }.
 
 Definition ack0 : ack := {| a_version := 0; a_rbuf := 0; a_sbuf := 0; a_maxmsg := 0; a_maxchunk := 0 |}.
 
@@ -334,7 +351,7 @@ Definition effective (g : gstate) (c : cstate) : econfig :=
   {| e_net := option_map d_net (c_dialer c);
      e_ack := option_map (fun d => option_map (deref g c) (d_ack d)) (c_dialer c);
      e_ack_is_default_ptr := match c_dialer c with Some {| d_ack := Some AGlobal |} => true | _ => false end;
-     e_sechan := c_sechan c; e_session := c_session c; e_statech := c_statech c; e_statefn := c_statefn c |}.
+     e_sechan := c_sechan c; e_session := c_session c; e_token := tok_get c; e_statech := c_statech c; e_statefn := c_statefn c |}.
 
 Definition outcome_eff (g : gstate) (o : outcome) : option (option econfig) :=
   match o with Created c => Some (Some (effective g c)) | Failed => Some None | Panic => None end.
@@ -361,8 +378,8 @@ Definition sechan_eqb (a b : sechan) : bool :=
 Definition session_eqb (a b : session) : bool :=
   Z.eqb (ss_timeout a) (ss_timeout b) && beqb (ss_appuri a) (ss_appuri b) && beqb (ss_producturi a) (ss_producturi b) &&
   beqb (ss_appname a) (ss_appname b) && opt_eqb (list_eqb beqb) (ss_locales a) (ss_locales b) && beqb (ss_name a) (ss_name b) &&
-  opt_eqb token_eqb (ss_token a) (ss_token b) && beqb (ss_authpolicy a) (ss_authpolicy b) && beqb (ss_authpass a) (ss_authpass b).
+  opt_eqb Nat.eqb (ss_token a) (ss_token b) && beqb (ss_authpolicy a) (ss_authpolicy b) && beqb (ss_authpass a) (ss_authpass b).
 Definition econfig_eqb (a b : econfig) : bool :=
   opt_eqb (opt_eqb Z.eqb) (e_net a) (e_net b) && opt_eqb (opt_eqb ack_eqb) (e_ack a) (e_ack b) &&
   Bool.eqb (e_ack_is_default_ptr a) (e_ack_is_default_ptr b) && sechan_eqb (e_sechan a) (e_sechan b) &&
-  session_eqb (e_session a) (e_session b) && N.eqb (e_statech a) (e_statech b) && N.eqb (e_statefn a) (e_statefn b).
+  session_eqb (e_session a) (e_session b) && opt_eqb token_eqb (e_token a) (e_token b) && N.eqb (e_statech a) (e_statech b) && N.eqb (e_statefn a) (e_statefn b).
